@@ -49,8 +49,10 @@ claim('C09', "modifies-nothing frame condition on every function under contract:
 claim('C10', "KeyCache.__call__ (unbounded mode) proved transparent (results and exceptions) under 'equal keys mean interchangeable arguments', with a ghost history invariant and a "
       "retention obligation (arguments behind id()-based keys stay referenced); lemma: make_converter's key identifies its arguments among live objects; make_converter proved "
       "to be memoised in exactly that mode (decorator obligation); mapping-form handlers proved to be wrapped in a new plain function per call; every converter method proved "
-      "not to store state on the (shared, memoised) converter or in module-level state (frame obligations).",
-      note="Not decided by this technique: thread interleavings; LRU mode (unused by make_converter) is not under contract; id() uniqueness among live objects is CPython's guarantee (assumed).")
+      "not to store state on the (shared, memoised) converter or in module-level state (frame obligations). BOUNDED: the LRU mode (maxsize given; cyclic list of aliased "
+      "lists, outside the symbolic heap model) is checked at run time on every operation sequence of length <= 5 over 4 keys, maxsize 0..3 "
+      "(transparency of results and exceptions; recency-list representation invariant; eviction policy deliberately not a clause).",
+      note="Not decided by this technique: thread interleavings; LRU mode is bounded only (unused by make_converter); id() uniqueness among live objects is CPython's guarantee (assumed).")
 claim('C11', "UnionConverter.try_convert/collect_errors/into_data/construct/__init__ proved with inductive invariants: accepts iff some member accepts, result is the image under "
       "the left-most accepting member, diagnostic node has one child per member in declaration order, serialisation by the first accepting member; make_converter's union branch "
       "threads the handlers; type-variable substitution keeps union member order (bounded).",
